@@ -96,7 +96,8 @@ def cases(draw):
             rnd2 = gen.Renderer({}, base["regions"], PROFILE, 0.508, False, False)
             tx, ty = rnd2.target("in", draw(st.integers(0, 3)), draw(st.integers(0, 100)), draw(st.integers(0, 100)))
             after.append(["g", "G1 X%s Y%s" % (gen.fmt(tx), gen.fmt(ty))])
-    return {"config": base["config"], "regions": base["regions"], "prefix": prefix, "lines": text, "after_create": after}
+    return {"config": base["config"], "regions": base["regions"], "prefix": prefix, "lines": text, "after_create": after,
+            "earlier_file": draw(st.integers(0, 3)) == 0}
 
 
 def strategy(tier):
@@ -156,6 +157,14 @@ def run_case(case, strict=False):  # pylint: disable=unused-argument,too-many-lo
     twin_state = copy.deepcopy(live.state)
     twin = GcodeHandlers(twin_state, env.make_logger())
     twin_comm = core.Comm()
+    if case.get("earlier_file"):
+        # another file was filtered before, by a processor of its own created from the same live state
+        sp0 = StreamProcessor(io.BytesIO(b""), live.handlers)
+        for line in ["G91\n", "G1 X3 Y3\n", "G20\n", "M117 other file\n"] + case["lines"][:4]:
+            try:
+                sp0.process_line(line)
+            except Exception:  # pylint: disable=broad-except
+                pass
     sp = StreamProcessor(io.BytesIO(b""), live.handlers)
     for item in case.get("after_create") or []:
         try:
@@ -169,6 +178,8 @@ def run_case(case, strict=False):  # pylint: disable=unused-argument,too-many-lo
     last_eol = None
     kinds = set()
     cl = set()
+    if case.get("earlier_file"):
+        cl.add("second_processor_from_the_same_state")
     if snap_created["excluding"]:
         cl.add("live_state_mid_episode")
     if snap_created["pending"]:
